@@ -57,7 +57,12 @@ def c14a_census(ctx, tu, seen):
                 continue
             if fe == NS + "call_matcher::val":
                 continue   # the stored expected values: user values (a smart pointer in there is the user's)
-            known = fe in OWNING or fe in LITERAL or fe in SCOPE or fe in USER or fe in NODE or fe in CONTAINMENT or fe in PEER \
+            # a pointer to constant characters is text with static storage duration throughout this library (macro
+            # stringification, __FILE__): classified by its type, whatever the member is called
+            is_text = re.sub(r"\bconst\b|\s", "", f["t"]) == "char*" and "const" in f["t"]
+            # an owning smart pointer keeps its pointee alive by construction, whatever the member is called
+            is_owner = bool(re.match(r"^(const )?std::(unique_ptr|shared_ptr)<", f["t"].strip()))
+            known = is_text or is_owner or fe in OWNING or fe in LITERAL or fe in SCOPE or fe in USER or fe in NODE or fe in CONTAINMENT or fe in PEER \
                 or fe in lib.peer_roles(tu).values() or lib.holder_field(tu, fe) is not None
             # matcher classes store operands by value; a pointer-typed operand is the user's value
             if not known and (fe.startswith(NS + "predicate_matcher::") or fe.startswith(NS + "impl::") or
